@@ -188,7 +188,9 @@ def replay_ce(ce):
         return ('reproduced' if bad else 'not_reproduced'), details[:6] or ['every write to the storage-less context fails natively']
     # native comparison of the two evaluators on probe programs
     progs = ['1 + 2', 'x * 2', 'f(x)', 's + "a"', 'x == 1', 'x = 2', 'x += 1', 'y = 1', '(1, x)', '1; x', 'min(x, 2)', 'missing', '1 / 0', 'x = 1 / 0', 'x = missing',
-             'false && missing', 'true || (1 / 0 > 1)', 'x != 1 && 2 / (x - 1) > 1', 'typeof(x)', 'x &&= true', '-x', '!true']
+             'false && missing', 'true || (1 / 0 > 1)', 'x != 1 && 2 / (x - 1) > 1', 'typeof(x)', 'x &&= true', '-x', '!true',
+             # an assignment operator with a missing operand is still an assignment operator that is reached
+             'x =', 'x +=', '(x =)', 'x + 1; x =', 's ||=']
     details = []
     bad = False
     for prof in ('dev', 'release'):
@@ -200,7 +202,7 @@ def replay_ce(ce):
         for i, p in enumerate(progs):
             r, m = out['r%d' % i], out['m%d' % i]
             rr, mr = r.get('result'), m.get('result')
-            has_assign = any(t in p for t in (' = ', '+=', '&&=')) and '==' not in p
+            has_assign = (any(t in p for t in (' = ', '+=', '&&=', '||=')) or p.rstrip(')').endswith('=')) and '==' not in p
             if r['vars'] != {'x': ('Int', 1), 's': ('String', 'q')}:
                 bad = True
                 details.append('%s: `%s` read-only evaluation changed the context: %s' % (prof, p, r['vars']))
